@@ -520,6 +520,12 @@ where
                     self.mode.set(InsertionMode::BeforeHtml);
                     return tokenizer::TokenSinkResult::Continue;
                 } else {
+                    if self.mode.get() == InsertionMode::InTableText {
+                        // Like any other non-character token, a DOCTYPE ends the run of
+                        // pending table character tokens before it is ignored.
+                        self.flush_pending_table_text();
+                        self.mode.set(self.orig_mode.take().unwrap());
+                    }
                     self.sink.parse_error(if self.opts.exact_errors {
                         Cow::from(format!("DOCTYPE in insertion mode {:?}", self.mode.get()))
                     } else {
